@@ -8,12 +8,19 @@
     * both modes reject an out-of-range `$n` with the same error (after the repair of lazy.rs);
     * `edge` and `attr` conflicts are detected by the same graph operations (`GraphOp`), so a conflicting
       attribute or an attribute on a missing edge fails in both modes.
+    * on CLOSED expressions (literals, captures, regex captures, list/set literals, function calls, nested to any depth)
+      strict evaluation and lazy evaluation (build, then force) succeed together, with equal values and equal graphs
+      afterwards (`C02_closed_expressions_agree`), and conditions over them select the same `if`/`elif` arm
+      (`C02_closed_conditions_agree`), and a whole `attr` statement on a node with such values has the same effect on the
+      graph whether applied at once (strict) or collected and applied in the evaluate phase (lazy)
+      (`C02_closed_node_attrs_agree`): unbounded pieces of the agreement itself, by induction on expressions and lists.
   The full statement `C02_full` is kept as a `Prop`; what is not proved of it is covered by the
   differential run (each mode against its model, and strict against lazy on the implementation).
 -/
 import Tsg.Proofs.Prog
 import Tsg.Sem.Lazy
 import Tsg.Props.C05
+import Tsg.Proofs.ClosedAgree
 
 namespace C02
 
@@ -66,7 +73,7 @@ theorem C02_same_capture_values (q : Quant) (nodes : List Nat) :
       Prog.run (Strict.fromNodes q nodes) l = .ok v l) := by
   refine ⟨rfl, ?_⟩
   intro s l v h
-  cases q <;> cases nodes <;> simp_all [Strict.fromNodes, Prog.run, Prog.panicAt, pure]
+  cases q <;> cases nodes <;> simp_all [Strict.fromNodes, Prog.run, Prog.panicAt, Prog.throwK, pure]
 
 /-- an out-of-range `$n` is `UndefinedRegexCapture` in both modes, never a panic -/
 theorem C02_regex_capture_out_of_range (cfg : Cfg) (fuel ef : Nat) (env : Env) (ix : Nat) (h : env.caps[ix]? = none) :
@@ -101,5 +108,96 @@ theorem C02_neither_mode_panics (o : POracle) (nullable : String → Option Bool
     (Lazy.run file tree oracle globals la va ma cancelAt fuel ef merged g0).outcome ≠ some (.panic site) :=
   ⟨C05.C05_load_then_strict_never_panics o nullable text file hload tree oracle globals la va ma cancelAt fuel ms g0 ht hg hms site,
    C05.C05_load_then_lazy_never_panics o nullable text file hload tree oracle globals la va ma cancelAt fuel ef merged g0 ht hg hm site⟩
+
+
+/-- **strict and lazy evaluation agree on closed expressions.** For every expression built from literals, captures, regex
+captures, list and set literals and function calls (nested to any depth; the calls may create graph nodes), every match,
+every pair of machine states holding the same graph, in uncancelled runs with enough evaluation fuel for the expression's
+depth: strict evaluation succeeds exactly when lazy evaluation (`lazyExpr` builds, `evalL` forces) succeeds; the two
+values are equal, the two graphs are equal afterwards (the calls ran in the same order), and neither mode touched its
+variables. When one fails the other fails (the errors may differ: lazy evaluation resolves every capture before it calls
+any function). -/
+theorem C02_closed_expressions_agree (cfg : Cfg) (fuel ef : Nat) (env : Env) (e : Expr) (hc : ClosedAgree.closedE e = true)
+    (hd : ClosedAgree.depthE e < ef) (s : Prog.MSt SRest) (t : Prog.MSt LSt) (hg : s.graph = t.graph)
+    (h1 : s.ps.cancelAt = none) (h2 : t.ps.cancelAt = none) :
+    match Prog.run (Strict.evalExpr cfg fuel env e) s, Prog.run (Lazy.eagerExpr cfg fuel ef env e) t with
+    | .ok v s', .ok v' t' => v = v' ∧ s'.graph = t'.graph ∧ s'.rest = s.rest ∧ t'.rest = t.rest
+    | .fail _ _, .fail _ _ => True
+    | _, _ => False := by
+  have h := ClosedAgree.closed_expressions_agree cfg fuel ef env e hc hd s t hg h1 h2
+  cases hr1 : Prog.run (Strict.evalExpr cfg fuel env e) s with
+  | ok v s' =>
+    cases hr2 : Prog.run (Lazy.eagerExpr cfg fuel ef env e) t with
+    | ok v' t' => rw [hr1, hr2] at h; exact h
+    | fail _ _ => rw [hr1, hr2] at h; exact h
+  | fail _ _ =>
+    cases hr2 : Prog.run (Lazy.eagerExpr cfg fuel ef env e) t with
+    | ok v' t' => rw [hr1, hr2] at h; exact h
+    | fail _ _ => trivial
+
+/-- **conditions agree.** `some e`, `none e` and a boolean `e` over a closed expression take the same branch in both
+modes, or fail in both: `if` and `elif` arms are selected alike. -/
+theorem C02_closed_conditions_agree (cfg : Cfg) (fuel ef : Nat) (env : Env) (c : Cond) (e : Expr) (l : Loc)
+    (hcnd : c = .some e l ∨ c = .none e l ∨ c = .bool e l) (hc : ClosedAgree.closedE e = true)
+    (hd : ClosedAgree.depthE e < ef) (s : Prog.MSt SRest) (t : Prog.MSt LSt) (hg : s.graph = t.graph)
+    (h1 : s.ps.cancelAt = none) (h2 : t.ps.cancelAt = none) :
+    match Prog.run (Strict.testCond cfg fuel env c) s, Prog.run (Lazy.testCondL cfg fuel ef env c) t with
+    | .ok b s', .ok b' t' => b = b' ∧ s'.graph = t'.graph ∧ s'.rest = s.rest ∧ t'.rest = t.rest
+    | .fail _ _, .fail _ _ => True
+    | _, _ => False := by
+  have h := ClosedAgree.closed_conditions_agree cfg fuel ef env c e l hcnd hc hd s t hg h1 h2
+  cases hr1 : Prog.run (Strict.testCond cfg fuel env c) s with
+  | ok v s' =>
+    cases hr2 : Prog.run (Lazy.testCondL cfg fuel ef env c) t with
+    | ok v' t' => rw [hr1, hr2] at h; exact h
+    | fail _ _ => rw [hr1, hr2] at h; exact h
+  | fail _ _ =>
+    cases hr2 : Prog.run (Lazy.testCondL cfg fuel ef env c) t with
+    | ok v' t' => rw [hr1, hr2] at h; exact h
+    | fail _ _ => trivial
+
+/-- **an `attr` statement on a node, with closed values and plain attribute names.** Strict execution applies each
+attribute as soon as its value is evaluated; lazy execution first collects the attributes (`lazyAttrs`, while it visits
+the match) and applies them later (`evalNodeAttrs`, in the evaluate phase, from any later state `t'` that holds the same
+graph as the strict run). If collecting fails (a capture that cannot be resolved) the strict statement fails too;
+otherwise both succeed — and then the graphs are equal: the same attribute values on the node, the same nodes created by
+`node` calls inside the values, in the same order — or both fail. -/
+theorem C02_closed_node_attrs_agree (cfg : Cfg) (fuel ef : Nat) (env : Env) (n : Nat) (dbg : StmtCtx) (attrs : List AttrE)
+    (hc : ClosedAgree.closedAttrs cfg ef attrs) (s : Prog.MSt SRest) (t t' : Prog.MSt LSt)
+    (hg : s.graph = t'.graph) (h1 : s.ps.cancelAt = none) (h2 : t.ps.cancelAt = none) (h3 : t'.ps.cancelAt = none) :
+    (∀ f t1, Prog.run (Lazy.lazyAttrs cfg fuel ef env attrs []) t = .fail f t1 →
+      ∃ f' s', Prog.run (Strict.execAttrs cfg fuel env (.node n) attrs) s = .fail f' s') ∧
+    (∀ built t1, Prog.run (Lazy.lazyAttrs cfg fuel ef env attrs []) t = .ok built t1 →
+      (∃ s' t'', Prog.run (Strict.execAttrs cfg fuel env (.node n) attrs) s = .ok () s' ∧
+          Prog.run (Lazy.evalNodeAttrs cfg ef n dbg built) t' = .ok () t'' ∧ s'.graph = t''.graph) ∨
+      ((∃ f' s', Prog.run (Strict.execAttrs cfg fuel env (.node n) attrs) s = .fail f' s') ∧
+       (∃ f'' t'', Prog.run (Lazy.evalNodeAttrs cfg ef n dbg built) t' = .fail f'' t''))) := by
+  have h := ClosedAgree.closed_node_attrs_agree cfg fuel ef env n dbg attrs hc s t t' hg h1 h2 h3
+  constructor
+  · intro f t1 hr
+    rw [hr] at h
+    dsimp only at h
+    cases hs : Prog.run (Strict.execAttrs cfg fuel env (.node n) attrs) s with
+    | ok _ _ => rw [hs] at h; exact h.elim
+    | fail f' s' => exact ⟨f', s', rfl⟩
+  · intro built t1 hr
+    rw [hr] at h
+    dsimp only at h
+    cases hs : Prog.run (Strict.execAttrs cfg fuel env (.node n) attrs) s with
+    | ok u s' =>
+      cases hl : Prog.run (Lazy.evalNodeAttrs cfg ef n dbg built) t' with
+      | ok u' t'' =>
+        rw [hs, hl] at h
+        cases u; cases u'
+        exact Or.inl ⟨s', t'', rfl, rfl, h.1⟩
+      | fail _ _ => rw [hs, hl] at h; exact h.elim
+    | fail f' s' =>
+      cases hl : Prog.run (Lazy.evalNodeAttrs cfg ef n dbg built) t' with
+      | ok _ _ => rw [hs, hl] at h; exact h.elim
+      | fail f'' t'' => exact Or.inr ⟨⟨f', s', rfl⟩, ⟨f'', t'', rfl⟩⟩
+
+/-- non-vacuity: a nested closed expression with a call that creates a graph node, and enough fuel for it -/
+example : ClosedAgree.closedE (.list [.call "node" [], .set [.int 1, .str "a"], .regexCap 0]) = true ∧
+    ClosedAgree.depthE (.list [.call "node" [], .set [.int 1, .str "a"], .regexCap 0]) < 3 := by decide
 
 end C02
